@@ -40,9 +40,12 @@ class PathAbort(Exception):
 STATS = {"queries": 0, "solver_s": 0.0, "decide_queries": 0}
 
 
+TSCALE = float(os.environ.get("SYMJNP_TSCALE", "1"))  # global time-budget multiplier (retries of undecided items use 3)
+
+
 def _solver(timeout_ms=None):
     s = z3.Solver()
-    s.set("timeout", timeout_ms or TIMEOUT_MS)
+    s.set("timeout", int((timeout_ms or TIMEOUT_MS) * TSCALE))
     return s
 
 
@@ -216,6 +219,8 @@ class Engine:
         self.assumptions_used = set()
         self._decide_cache = {}
         self._div_seen = set()
+        self.div_assume = False       # divisions assume (instead of prove) a non-zero denominator
+        self.div_guard_off_spec = 0   # >0 while spec terms are evaluated (no facts are taken from spec divisions)
         self.concrete = None  # replay mode: dict symbol name -> python number
 
     # --------------------------------------------------------------- symbols
@@ -355,6 +360,14 @@ class Engine:
         return self
 
     def _div_hook(self, den):
+        if self.div_assume and not self.div_guard_off:
+            # documented assumption on the inputs (e.g. a reference field with non-zero norm): the denominator is
+            # non-zero -- recorded as a fact of the path, listed under assumptions
+            if isinstance(den, z3.ExprRef):
+                fact = den != 0
+                if not any(fact.get_id() == c.get_id() for c in self.pc):
+                    self.pc.append(fact)
+            return
         if self.div_guard_off:
             return
         key = (self.path_id, den.get_id(), tuple(h.get_id() for h in self.hyps))
